@@ -284,6 +284,9 @@ func (d *D) Any() any {
 	switch d.K {
 	case "null":
 		return nil
+	case "other":
+		// a kind the reader supports nowhere
+		return uint16(7)
 	case "int":
 		return d.I
 	case "float":
